@@ -3,7 +3,7 @@
 //! E1 over (X, y, model configuration, width). Two input spaces, both enumerated completely:
 //!  * the lattice: every n x p matrix X over Σ4 (Σ3 for the largest shapes) and every y over
 //!    {0,-1,2}^n, p in {1,2,(3)}, n = p+1..p+3, with the exact rank of X and [X 1] deciding the domain;
-//!  * structured designs (Chebyshev-node Vandermonde, indicator, ramp), p <= 8, n <= 80, with
+//!  * structured designs (Chebyshev-node Vandermonde, indicator with two phases, ramp), p <= 8, n <= 80, with
 //!    every combination of 6 column-scale patterns over {1,1e-2,1e3}, 6 column-mean patterns over
 //!    {0,5,100} and 4 targets; the domain is decided by the oracle's own singular values.
 //! Every execution fits one model configuration (OLS, or ridge with one alpha and one normalise
